@@ -516,6 +516,10 @@ ROUTINES.update({
 })
 
 
+ROUTINES_2Q = ['two_qubit_matrix_to_cz_operations', 'two_qubit_matrix_to_diagonal_and_cz_operations', 'two_qubit_matrix_to_sqrt_iswap_operations',
+               'decompose_two_qubit_interaction_into_four_fsim_gates', 'two_qubit_matrix_to_ion_operations', 'two_qubit_matrix_to_sycamore_operations']
+
+
 def is_cz(allow_partial):
     def f(op):
         g = op.gate
@@ -546,118 +550,115 @@ def region_count(xyz, margin=1e-6):
     return 2 if s > 0 else 3
 
 
-def synth2q_stream(ctx, cirq, mods, conv, inputs, checks, sub):
-    rng = ctx.rng
+FSIMS = {'FSim(pi/2,pi/6)': (math.pi / 2, math.pi / 6), 'FSim(pi/2,0)': (math.pi / 2, 0.0), 'ISWAP': None,
+         'FSim(3pi/8,pi/4)': (3 * math.pi / 8, math.pi / 4), 'FSim(5pi/8,-pi/4)': (5 * math.pi / 8, -math.pi / 4),
+         'FSim(1.4,0.2)': (1.4, 0.2), 'FSim(-pi/2,pi/6)': (-math.pi / 2, math.pi / 6)}
+
+
+def run_2q(ctx, cirq, mods, conv, checks, routine, opts, name, u, hint):
+    """One invocation of one two-qubit routine on one input + the Coq comparisons of its result."""
     q = cirq.LineQubit.range(2)
     cg = mods['cirq_google']
-    fsims = [('FSim(pi/2,pi/6)', cirq.FSimGate(math.pi / 2, math.pi / 6)), ('FSim(pi/2,0)', cirq.FSimGate(math.pi / 2, 0)), ('ISWAP', cirq.ISWAP),
-             ('FSim(3pi/8,pi/4)', cirq.FSimGate(3 * math.pi / 8, math.pi / 4)), ('FSim(5pi/8,-pi/4)', cirq.FSimGate(5 * math.pi / 8, -math.pi / 4)),
-             ('FSim(1.4,0.2)', cirq.FSimGate(1.4, 0.2)), ('FSim(-pi/2,pi/6)', cirq.FSimGate(-math.pi / 2, math.pi / 6))]
-    for k, (name, u, hint) in enumerate(inputs):
-        nt = not name.startswith('identity')
-        special = not name.startswith('random')
-        # ---- CZ ----
-        combos = [(False, True, 1e-8), (True, True, 1e-8)]
-        if k % sub == 0:
-            combos += [(False, False, 1e-8), (True, False, 1e-8), (rng.random() < 0.5, rng.random() < 0.5, rng.choice([1e-6, 1e-10, 1e-5]))]
-        for partial, clean, atol in combos:
-            opts = dict(allow_partial_czs=partial, clean_operations=clean, atol=atol)
-            try:
-                ops = cirq.two_qubit_matrix_to_cz_operations(q[0], q[1], u, allow_partial_czs=partial, atol=atol, clean_operations=clean)
-            except Exception as e:
-                ctx.violation(f'two_qubit_matrix_to_cz_operations:raises:{name}', f'two_qubit_matrix_to_cz_operations({opts}) raised {type(e).__name__}: {e} on {name} '
-                              '(every two-qubit unitary can be written with three full CZs)', dict(kind='synth', routine='two_qubit_matrix_to_cz_operations', opts=opts, input_class=name, matrix=cmat(u)))
-                continue
-            add_ops_checks(ctx, conv, checks, 'two_qubit_matrix_to_cz_operations', opts, name, u, ops, q, atol, True,
-                           (3, False, is_cz(partial), 'at most 3 two-qubit gates, all CZ' + (' powers' if partial else ' (no partial CZ)')), nt)
-        if k % sub == 0 or special and k % 2 == 0:
-            partial = rng.random() < 0.5
-            opts = dict(allow_partial_czs=partial)
-            try:
-                d, ops = cirq.two_qubit_matrix_to_diagonal_and_cz_operations(q[0], q[1], u, allow_partial_czs=partial)
-                ok = True
-            except Exception as e:
-                ok = False
-                ctx.violation(f'two_qubit_matrix_to_diagonal_and_cz_operations:raises:{name}', f'two_qubit_matrix_to_diagonal_and_cz_operations({opts}) raised {type(e).__name__}: {e} on {name}',
-                              dict(kind='synth', routine='two_qubit_matrix_to_diagonal_and_cz_operations', opts=opts, input_class=name, matrix=cmat(u)))
-            if ok:
-                ops = list(ops) + [cirq.MatrixGate(np.asarray(d, dtype=complex)).on(*q)] if False else list(ops)
-                # V = Circuit(ops) @ D: D is applied first
-                allops = [cirq.MatrixGate(np.asarray(d, dtype=complex)).on(*q)] + ops
-                add_ops_checks(ctx, conv, checks, 'two_qubit_matrix_to_diagonal_and_cz_operations', opts, name, u, allops, q, 1e-8, True, None, nt)
-                checks.append(('two_qubit_matrix_to_diagonal_and_cz_operations:form',
-                               f'is_diagonal_f {fl(1e-8)} {gates.fmat(d)} && is_unitary_f {fl(1e-7)} 4 {gates.fmat(d)} && within_count {opdescs(ops, is_cz(partial))} 3',
-                               f'two_qubit_matrix_to_diagonal_and_cz_operations on {name}: D is not a diagonal unitary or more than 3 CZ are used',
-                               dict(kind='synth', routine='two_qubit_matrix_to_diagonal_and_cz_operations', opts=opts, input_class=name, matrix=cmat(u),
-                                    signature=f'two_qubit_matrix_to_diagonal_and_cz_operations:form:{name}')))
-        # ---- sqrt-iSWAP ----
-        combos = [(None, False, False, 1e-8)]
-        if special or k % sub == 0:
-            combos += [(3, False, False, 1e-8), (2, rng.random() < 0.5, rng.random() < 0.5, 1e-8)]
-        if k % sub == 0:
-            combos += [(rng.choice([0, 1]), False, False, 1e-8), (None, True, True, rng.choice([1e-8, 1e-6]))]
+    nt = not name.startswith('identity')
+    rep = dict(kind='synth', routine=routine, opts=opts, input_class=name, matrix=cmat(u), hint=list(hint) if hint is not None else None)
+
+    def raised(e, extra=''):
+        ctx.violation(f'{routine}:raises:{name}', f'{routine}({opts}) raised {type(e).__name__}: {e} on {name}{extra}', rep)
+
+    if routine == 'two_qubit_matrix_to_cz_operations':
+        try:
+            ops = cirq.two_qubit_matrix_to_cz_operations(q[0], q[1], u, **opts)
+        except Exception as e:
+            return raised(e, ' (every two-qubit unitary can be written with three full CZs)')
+        partial = opts['allow_partial_czs']
+        add_ops_checks(ctx, conv, checks, routine, opts, name, u, ops, q, opts['atol'], True,
+                       (3, False, is_cz(partial), 'at most 3 two-qubit gates, all CZ' + (' powers' if partial else ' (no partial CZ)')), nt)
+    elif routine == 'two_qubit_matrix_to_diagonal_and_cz_operations':
+        try:
+            d, ops = cirq.two_qubit_matrix_to_diagonal_and_cz_operations(q[0], q[1], u, **opts)
+        except Exception as e:
+            return raised(e)
+        ops = list(ops)
+        d = np.asarray(d, dtype=complex)
+        # V = Circuit(ops) @ D: D acts first
+        add_ops_checks(ctx, conv, checks, routine, opts, name, u, [cirq.MatrixGate(d).on(*q)] + ops, q, 1e-8, True, None, nt)
+        checks.append((routine + ':form', f'is_diagonal_f {fl(1e-8)} {gates.fmat(d)} && is_unitary_f {fl(1e-7)} 4 {gates.fmat(d)} && '
+                       f'within_count {opdescs(ops, is_cz(opts["allow_partial_czs"]))} 3',
+                       f'{routine} on {name}: D is not a diagonal unitary or more than 3 CZ are used', dict(rep, signature=f'{routine}:form:{name}')))
+    elif routine == 'two_qubit_matrix_to_sqrt_iswap_operations':
+        req, inv = opts['required_sqrt_iswap_count'], opts['use_sqrt_iswap_inv']
         expected = region_count(hint)
-        for req, inv, clean, atol in combos:
-            opts = dict(required_sqrt_iswap_count=req, use_sqrt_iswap_inv=inv, clean_operations=clean, atol=atol)
-            rep = dict(kind='synth', routine='two_qubit_matrix_to_sqrt_iswap_operations', opts=opts, input_class=name, matrix=cmat(u))
-            try:
-                ops = cirq.two_qubit_matrix_to_sqrt_iswap_operations(q[0], q[1], u, required_sqrt_iswap_count=req, use_sqrt_iswap_inv=inv, atol=atol,
-                                                                     clean_operations=clean)
-            except ValueError as e:
-                # documented only when the matrix needs more than `req` gates
-                ctx.count(f'two_qubit_matrix_to_sqrt_iswap_operations[required={req}]:ValueError', [name, rep['matrix']], nt)
-                if req is None or req >= 3 or (expected is not None and expected <= req):
-                    ctx.violation(f'two_qubit_matrix_to_sqrt_iswap_operations:raises:{name}', f'two_qubit_matrix_to_sqrt_iswap_operations({opts}) raised ValueError({e}) on {name} '
-                                  f'although {expected if expected is not None else "at most 3"} sqrt-iSWAP suffice', rep)
-                continue
-            except Exception as e:
-                ctx.violation(f'two_qubit_matrix_to_sqrt_iswap_operations:raises:{name}', f'two_qubit_matrix_to_sqrt_iswap_operations({opts}) raised {type(e).__name__}: {e} on {name}', rep)
-                continue
-            ex = 0.5 if not inv else -0.5
-            native = lambda op, ex=ex: isinstance(op.gate, cirq.ISwapPowGate) and abs(float(op.gate.exponent) - ex) < 1e-12
-            if req is not None:
-                cnt = (req, True, native, f'exactly required_sqrt_iswap_count={req} sqrt-iSWAP')
-            elif expected is not None:
-                cnt = (expected, True, native, f'the fewest possible number of sqrt-iSWAP, {expected} for KAK coefficients {hint}')
-            else:
-                cnt = (3, False, native, 'at most three sqrt-iSWAP')
-            add_ops_checks(ctx, conv, checks, 'two_qubit_matrix_to_sqrt_iswap_operations', opts, name, u, ops, q, atol, True, cnt, nt)
-        # ---- four FSim ----
-        pick = fsims[:1] + ([rng.choice(fsims[1:])] if (special and k % 2 == 0) or k % sub == 0 else [])
-        for fname, fg in pick:
-            opts = dict(fsim_gate=fname)
-            rep = dict(kind='synth', routine='decompose_two_qubit_interaction_into_four_fsim_gates', opts=opts, input_class=name, matrix=cmat(u))
-            try:
-                circ = cirq.decompose_two_qubit_interaction_into_four_fsim_gates(u, fsim_gate=fg, qubits=q)
-            except Exception as e:
-                ctx.violation(f'decompose_two_qubit_interaction_into_four_fsim_gates:raises:{fname}:{name}',
-                              f'decompose_two_qubit_interaction_into_four_fsim_gates(fsim_gate={fname}) raised {type(e).__name__}: {e} on {name}', rep)
-                continue
-            native = lambda op, fg=fg: op.gate == fg
-            add_ops_checks(ctx, conv, checks, 'decompose_two_qubit_interaction_into_four_fsim_gates', opts, name, u, circ.all_operations(), q, 1e-7, False,
-                           (4, True, native, f'exactly four {fname} gates'), nt, extra=dict(sig_extra=fsim_signature(cirq, fname, u)))
-        # ---- MS ----
+        try:
+            ops = cirq.two_qubit_matrix_to_sqrt_iswap_operations(q[0], q[1], u, **opts)
+        except ValueError as e:
+            ctx.count(f'{routine}[required={req}]:ValueError', [name, rep['matrix']], nt)
+            if req is None or req >= 3 or (expected is not None and expected <= req):
+                raised(e, f' although {expected if expected is not None else "at most 3"} sqrt-iSWAP suffice')
+            return
+        except Exception as e:
+            return raised(e)
+        ex = -0.5 if inv else 0.5
+        native = lambda op: isinstance(op.gate, cirq.ISwapPowGate) and abs(float(op.gate.exponent) - ex) < 1e-12
+        if req is not None:
+            cnt = (req, True, native, f'exactly required_sqrt_iswap_count={req} sqrt-iSWAP')
+        elif expected is not None:
+            cnt = (expected, True, native, f'the fewest possible number of sqrt-iSWAP, {expected} for KAK coefficients {hint}')
+        else:
+            cnt = (3, False, native, 'at most three sqrt-iSWAP')
+        add_ops_checks(ctx, conv, checks, routine, opts, name, u, ops, q, opts['atol'], True, cnt, nt)
+    elif routine == 'decompose_two_qubit_interaction_into_four_fsim_gates':
+        fname = opts['fsim_gate']
+        fg = cirq.ISWAP if FSIMS[fname] is None else cirq.FSimGate(*FSIMS[fname])
+        try:
+            circ = cirq.decompose_two_qubit_interaction_into_four_fsim_gates(u, fsim_gate=fg, qubits=q)
+        except Exception as e:
+            return raised(e)
+        add_ops_checks(ctx, conv, checks, routine, opts, name, u, circ.all_operations(), q, 1e-7, False,
+                       (4, True, lambda op: op.gate == fg, f'exactly four {fname} gates'), nt, extra=dict(sig_extra=fsim_signature(cirq, fname, u)))
+    elif routine == 'two_qubit_matrix_to_ion_operations':
+        try:
+            ops = cirq.two_qubit_matrix_to_ion_operations(q[0], q[1], u, **opts)
+        except Exception as e:
+            return raised(e)
+        add_ops_checks(ctx, conv, checks, routine, opts, name, u, ops, q, 1e-8, True,
+                       (3, False, lambda op: isinstance(op.gate, cirq.XXPowGate), 'at most 3 Molmer-Sorensen gates'), nt)
+    elif routine == 'two_qubit_matrix_to_sycamore_operations':
+        try:
+            ops = list(cirq.flatten_to_ops(cg.two_qubit_matrix_to_sycamore_operations(q[0], q[1], u, **opts)))
+        except Exception as e:
+            return raised(e)
+        add_ops_checks(ctx, conv, checks, routine, opts, name, u, ops, q, 1e-8, True,
+                       (6, False, lambda op: isinstance(op.gate, cg.SycamoreGate), 'only SYC as two-qubit gate (<= 6: two per CZPow)'), nt)
+    else:
+        raise KeyError(routine)
+
+
+def synth2q_stream(ctx, cirq, mods, conv, inputs, checks, sub):
+    rng = ctx.rng
+    fn = list(FSIMS)
+    for k, (name, u, hint) in enumerate(inputs):
+        special = not name.startswith('random')
+        todo = [('two_qubit_matrix_to_cz_operations', dict(allow_partial_czs=False, clean_operations=True, atol=1e-8)),
+                ('two_qubit_matrix_to_cz_operations', dict(allow_partial_czs=True, clean_operations=True, atol=1e-8)),
+                ('two_qubit_matrix_to_sqrt_iswap_operations', dict(required_sqrt_iswap_count=None, use_sqrt_iswap_inv=False, clean_operations=False, atol=1e-8)),
+                ('decompose_two_qubit_interaction_into_four_fsim_gates', dict(fsim_gate=fn[0]))]
+        if k % sub == 0:
+            todo += [('two_qubit_matrix_to_cz_operations', dict(allow_partial_czs=False, clean_operations=False, atol=1e-8)),
+                     ('two_qubit_matrix_to_cz_operations', dict(allow_partial_czs=True, clean_operations=False, atol=1e-8)),
+                     ('two_qubit_matrix_to_cz_operations', dict(allow_partial_czs=rng.random() < 0.5, clean_operations=rng.random() < 0.5, atol=rng.choice([1e-6, 1e-10, 1e-5]))),
+                     ('two_qubit_matrix_to_sqrt_iswap_operations', dict(required_sqrt_iswap_count=rng.choice([0, 1]), use_sqrt_iswap_inv=False, clean_operations=False, atol=1e-8)),
+                     ('two_qubit_matrix_to_sqrt_iswap_operations', dict(required_sqrt_iswap_count=None, use_sqrt_iswap_inv=True, clean_operations=True, atol=rng.choice([1e-8, 1e-6])))]
         if special or k % sub == 0:
-            clean = k % 3 != 0
-            opts = dict(clean_operations=clean)
-            try:
-                ops = cirq.two_qubit_matrix_to_ion_operations(q[0], q[1], u, clean_operations=clean)
-                add_ops_checks(ctx, conv, checks, 'two_qubit_matrix_to_ion_operations', opts, name, u, ops, q, 1e-8, True,
-                               (3, False, lambda op: isinstance(op.gate, cirq.XXPowGate), 'at most 3 Molmer-Sorensen gates'), nt)
-            except Exception as e:
-                ctx.violation(f'two_qubit_matrix_to_ion_operations:raises:{name}', f'two_qubit_matrix_to_ion_operations raised {type(e).__name__}: {e} on {name}',
-                              dict(kind='synth', routine='two_qubit_matrix_to_ion_operations', opts=opts, input_class=name, matrix=cmat(u)))
-        # ---- Sycamore ----
+            todo += [('two_qubit_matrix_to_sqrt_iswap_operations', dict(required_sqrt_iswap_count=3, use_sqrt_iswap_inv=False, clean_operations=False, atol=1e-8)),
+                     ('two_qubit_matrix_to_sqrt_iswap_operations', dict(required_sqrt_iswap_count=2, use_sqrt_iswap_inv=rng.random() < 0.5, clean_operations=rng.random() < 0.5, atol=1e-8)),
+                     ('two_qubit_matrix_to_ion_operations', dict(clean_operations=k % 3 != 0))]
+        if (special and k % 2 == 0) or k % sub == 0:
+            todo += [('two_qubit_matrix_to_diagonal_and_cz_operations', dict(allow_partial_czs=rng.random() < 0.5)),
+                     ('decompose_two_qubit_interaction_into_four_fsim_gates', dict(fsim_gate=rng.choice(fn[1:])))]
         if (special and k % 2 == 1) or k % sub == 0:
-            clean = k % 4 != 1
-            opts = dict(clean_operations=clean)
-            try:
-                ops = list(cirq.flatten_to_ops(cg.two_qubit_matrix_to_sycamore_operations(q[0], q[1], u, clean_operations=clean)))
-                add_ops_checks(ctx, conv, checks, 'two_qubit_matrix_to_sycamore_operations', opts, name, u, ops, q, 1e-8, True,
-                               (6, False, lambda op: isinstance(op.gate, cg.SycamoreGate), 'only SYC as two-qubit gate (<= 6: two per CZPow)'), nt)
-            except Exception as e:
-                ctx.violation(f'two_qubit_matrix_to_sycamore_operations:raises:{name}', f'two_qubit_matrix_to_sycamore_operations raised {type(e).__name__}: {e} on {name}',
-                              dict(kind='synth', routine='two_qubit_matrix_to_sycamore_operations', opts=opts, input_class=name, matrix=cmat(u)))
+            todo += [('two_qubit_matrix_to_sycamore_operations', dict(clean_operations=k % 4 != 1))]
+        for routine, opts in todo:
+            run_2q(ctx, cirq, mods, conv, checks, routine, opts, name, u, hint)
 
 
 def fsim_signature(cirq, fname, u):
@@ -674,17 +675,33 @@ def fsim_signature(cirq, fname, u):
 # =====================================================================================================
 def evaluate(ctx, checks):
     SH = 60
-    shards = []
-    for s0 in range(0, len(checks), SH):
-        part = checks[s0:s0 + SH]
-        text = PRE + 'Definition checks : list bool := [\n' + ';\n'.join(c[1] for c in part) + '].\nEval vm_compute in failing (fun b => b) checks.\n'
-        shards.append((f'c15_{ctx.seed}_{s0 // SH}', text))
-    outs = coq.coq_eval_many(shards, workers=12)
-    for si, out in enumerate(outs):
-        for idx in coq.parse_nat_list(coq.parse_evals(out)[0]):
-            stream, _, desc, rep = checks[si * SH + idx]
-            rep = dict(rep)
-            ctx.disagree(f'validation:{stream}', desc, rep.pop('signature'), desc, rep)
+
+    def run_shards(exprs, tag):
+        shards = []
+        for s0 in range(0, len(exprs), SH):
+            text = PRE + 'Definition checks : list bool := [\n' + ';\n'.join(exprs[s0:s0 + SH]) + '].\nEval vm_compute in failing (fun b => b) checks.\n'
+            shards.append((f'c15_{tag}_{ctx.seed}_{s0 // SH}', text))
+        outs = coq.coq_eval_many(shards, workers=14)
+        return [si * SH + idx for si, out in enumerate(outs) for idx in coq.parse_nat_list(coq.parse_evals(out)[0])]
+
+    failing = [checks[i] for i in run_shards([c[1] for c in checks], 'a')]
+    # classify reconstruction failures: beyond the documented tolerance but within 10x of it, or worse
+    second = [c for c in failing if 'loose' in c[3]]
+    still = set(run_shards([c[3]['loose'] for c in second], 'b')) if second else set()
+    minor = {id(c) for k, c in enumerate(second) if k not in still}
+    for c in failing:
+        stream, _, desc, rep = c
+        rep = dict(rep)
+        sig = rep.pop('signature')
+        rep.pop('loose', None)
+        loose_sig = rep.pop('loose_signature', None)
+        extra = rep.pop('sig_extra', None)
+        if id(c) in minor:
+            sig = loose_sig
+            desc += ' [residual within 10x the documented tolerance]'
+        elif extra and ':reconstruct:' in sig:
+            sig = sig.split(':reconstruct:')[0] + ':reconstruct:' + extra
+        ctx.disagree(f'validation:{stream}', desc, sig, desc, rep)
 
 
 def run(ctx):
@@ -701,8 +718,11 @@ def run(ctx):
     n = 1 if ctx.tier == 'quick' else 10
     canon_stream(ctx, cirq, 400 * n)
     checks = []
+    conv = Conv(cirq, mods)
     inputs = two_qubit_inputs(ctx, cirq, 40 * n)
     kak_stream(ctx, cirq, inputs, checks)
+    synth2q_stream(ctx, cirq, mods, conv, inputs, checks, 8 if ctx.tier == 'quick' else 2)
+    ctx.cov['operations_entering_through_cirq_unitary'] = dict(conv.via_unitary)
     evaluate(ctx, checks)
 
 
@@ -716,8 +736,11 @@ def replay(ctx, data):
         print('replay kak_canonicalize_vector:', bad or 'documented guarantees hold')
         return not bad
     checks = []
+    conv = Conv(cirq, mods)
     if kind == 'kak_decomposition':
         kak_stream(ctx, cirq, [(data['input_class'], from_cmat(data['matrix']), None)], checks)
+    elif kind == 'synth' and data['routine'] in ROUTINES_2Q:
+        run_2q(ctx, cirq, mods, conv, checks, data['routine'], data['opts'], data['input_class'], from_cmat(data['matrix']), data.get('hint'))
     else:
         print('replay: unknown kind', kind)
         return False
